@@ -45,6 +45,17 @@ TNew == /\ l <= Len(Tr) /\ Tr[l].k = "new"
 TSkip == /\ l <= Len(Tr) /\ Tr[l].k \in {"end"} /\ l' = l + 1
          /\ UNCHANGED <<cfg, since, sawDtx, refreshed, clean, run, loudRun, afterQuiet, mctr>>
 
+\* OPUS_SET_DTX between two packets.  The start window is stated for silence that begins while DTX is
+\* enabled; a change in the middle of a silent stretch (since > 0) suspends both start clauses until the
+\* next activity (sawDtx is what both clauses are conditioned on) and the stretch is no longer "clean".
+TDtx == /\ l <= Len(Tr) /\ Tr[l].k = "dtx"
+        /\ cfg' = [cfg EXCEPT !.dtx = Tr[l].v]
+        /\ sawDtx' = (sawDtx \/ since > 0)
+        /\ clean' = (clean /\ since = 0)
+        /\ run' = IF Tr[l].v = 0 THEN 0 ELSE run
+        /\ l' = l + 1
+        /\ UNCHANGED <<since, refreshed, loudRun, afterQuiet, mctr>>
+
 AllFalse(n) == [i \in 1..n |-> FALSE]
 
 \* model conformance of the peeked counters (only evaluated when Strict)
@@ -109,7 +120,7 @@ TEnc ==
      /\ mctr' = IF AnalysisRuns(cfg.cx, cfg.fs) THEN e.c ELSE e.sc
   /\ l' = l + 1 /\ UNCHANGED cfg
 
-Next == TNew \/ TSkip \/ TEnc
+Next == TNew \/ TSkip \/ TEnc \/ TDtx
 Spec == Init /\ [][Next]_vars
 
 Accepted ==
